@@ -1,7 +1,19 @@
 package checks
 
 import (
+	"encoding/binary"
+	"fmt"
+	"os"
+	"path/filepath"
+	"sync"
+	"time"
+
+	"github.com/ipld/go-storethehash/store/freelist"
+	"github.com/ipld/go-storethehash/store/types"
+
 	"verif/harness/internal/core"
+	"verif/harness/internal/gen"
+	"verif/harness/internal/hookrt"
 	"verif/harness/internal/run"
 )
 
@@ -9,10 +21,10 @@ func init() {
 	run.Register(&run.Check{
 		ID:    "C13",
 		Level: "exploration",
-		Cases: func(tier string) int { return tierN(tier, 3000, 60000) },
+		Cases: func(tier string) int { return tierN(tier, 3000, 60000) + tierN(tier, 60, 1200) },
 		Run:   runC13,
 		Rule: "sequential slice: case = (multihash configuration with small files, key universe, history with a Flush after every mutating call, primary/index GC cycles, restarts); at every quiescent point the on-disk layout is decoded by fsck and the multiset of locations that stopped being current since the previous point (overwritten, removed, relocated) must equal the multiset of entries appended to the freelist file (plus batches captured at the hand-over hook); batches consumed by GC must be dead afterwards and no location is marked twice or while current; " +
-			"non-trivial iff >=3 comparison points and >=2 freelist entries were observed; distinct = hash of (configuration, digests, operations)",
+			"non-trivial iff >=3 comparison points and >=2 freelist entries were observed; distinct = hash of (configuration, digests, operations). Concurrent family (last 60/1200 cases, freelist package boundary): 2-6 producers Put 500-2500 unique blocks each while one goroutine loops Flush and one loops ToGC + read + delete of the hand-over file, with delays injected at the hooks between rename and reopen and around the pool swap; after Close the multiset handed over plus the multiset left in the file must equal the multiset produced (no loss, no duplicate, no split entry)",
 		Assumptions: []string{
 			"a flush after every mutating call makes each interval's superseded set exact; GC runs only on flushed state here (GC on unflushed state is explored by C04)",
 			"locations are never reused (file numbers only grow in the explored range)",
@@ -20,8 +32,161 @@ func init() {
 	})
 }
 
+func c13SeqCount(tier string) int { return tierN(tier, 3000, 60000) }
+
 func runC13(c run.Ctx) *core.CaseResult {
+	if c.Index >= c13SeqCount(c.Tier) {
+		return runC13FreelistStress(c)
+	}
 	return runC13Seq(c)
+}
+
+// runC13FreelistStress: exactly-once delivery through the freelist's buffering, flushing and
+// hand-over rotation under concurrency (freelist package boundary).
+func runC13FreelistStress(c run.Ctx) *core.CaseResult {
+	res := &core.CaseResult{ID: c.ID(), Verdict: "held"}
+	r := gen.Rng(c.Seed, propStream("C13fl"), uint64(c.Index))
+	dir, err := os.MkdirTemp(core.Scratch(), "vchk-fl-")
+	if err != nil {
+		res.Verdict = "inconclusive"
+		return res
+	}
+	defer os.RemoveAll(dir)
+	rt := hookrt.New()
+	rt.Install()
+	defer hookrt.Uninstall()
+	// widen the window between rename and reopen of the hand-over, and around flush
+	rt.Delay = func(name string, hit int64, goid int64) time.Duration {
+		switch name {
+		case "fl.togc.renamed", "fl.togc.before-rename", "fl.flush.swapped", "fl.flush.before-write":
+			if (uint64(hit)*2654435761+uint64(c.Index))%5 == 0 {
+				return time.Duration(50+hit%300) * time.Microsecond
+			}
+		}
+		return 0
+	}
+	path := filepath.Join(dir, "t.free")
+	fl, err := freelist.Open(path)
+	if err != nil {
+		res.Verdict = "inconclusive"
+		return res
+	}
+	nprod := 2 + r.IntN(5)
+	per := 500 + r.IntN(2000)
+	var wg, bg sync.WaitGroup
+	stop := make(chan struct{})
+	for p := 0; p < nprod; p++ {
+		wg.Add(1)
+		go func(p int) {
+			defer wg.Done()
+			for i := 0; i < per; i++ {
+				fl.Put(types.Block{Offset: types.Position(uint64(p+1)<<32 | uint64(i)), Size: types.Size(10 + i%50)})
+			}
+		}(p)
+	}
+	bg.Add(1)
+	go func() {
+		defer bg.Done()
+		for {
+			select {
+			case <-stop:
+				return
+			default:
+			}
+			if _, err := fl.Flush(); err != nil {
+				res.Violate("freelist-flush-error", "c13-fl-flush-error", 0, nil, "Flush: %v", err)
+				return
+			}
+			time.Sleep(time.Duration(20+r.IntN(200)) * time.Microsecond)
+		}
+	}()
+	consumed := map[uint64]int{}
+	var handovers, handoverEntries int64
+	consume := func() bool {
+		gc, err := fl.ToGC()
+		if err != nil {
+			res.Violate("freelist-togc-error", "c13-fl-togc-error", 0, nil, "ToGC: %v", err)
+			return false
+		}
+		b, err := os.ReadFile(gc)
+		if err != nil {
+			res.Violate("freelist-gc-file", "c13-fl-gc-file-unreadable", 0, nil, "hand-over file: %v", err)
+			return false
+		}
+		if len(b)%12 != 0 {
+			res.Violate("freelist-torn-entry", "c13-fl-torn-entry", 0, nil, "hand-over file has %d bytes, not a multiple of 12 (an entry was split across the rotation)", len(b))
+		}
+		for p := 0; p+12 <= len(b); p += 12 {
+			consumed[binary.LittleEndian.Uint64(b[p:])]++
+			handoverEntries++
+		}
+		handovers++
+		os.Remove(gc)
+		return true
+	}
+	bg.Add(1)
+	cdone := make(chan struct{})
+	go func() {
+		defer bg.Done()
+		defer close(cdone)
+		for {
+			select {
+			case <-stop:
+				return
+			default:
+			}
+			if !consume() {
+				return
+			}
+			time.Sleep(time.Duration(100+r.IntN(400)) * time.Microsecond)
+		}
+	}()
+	wg.Wait()
+	close(stop)
+	bg.Wait()
+	rt.Delay = nil
+	if _, err := fl.Flush(); err != nil {
+		res.Violate("freelist-flush-error", "c13-fl-flush-error", 0, nil, "final Flush: %v", err)
+	}
+	consume()
+	if err := fl.Close(); err != nil {
+		res.Violate("freelist-close-error", "c13-fl-close-error", 0, nil, "Close: %v", err)
+	}
+	if b, err := os.ReadFile(path); err == nil {
+		for p := 0; p+12 <= len(b); p += 12 {
+			consumed[binary.LittleEndian.Uint64(b[p:])]++
+		}
+	}
+	lost, dup := 0, 0
+	for p := 0; p < nprod; p++ {
+		for i := 0; i < per; i++ {
+			switch n := consumed[uint64(p+1)<<32|uint64(i)]; {
+			case n == 0:
+				lost++
+			case n > 1:
+				dup++
+			}
+		}
+	}
+	if lost > 0 {
+		res.Violate("freelist-entry-lost", "c13-fl-entry-lost", 0, nil, "%d of %d freelist entries were neither handed to the consumer nor left in the file", lost, nprod*per)
+	}
+	if dup > 0 {
+		res.Violate("freelist-entry-duplicated", "c13-fl-entry-duplicated", 0, nil, "%d freelist entries were delivered more than once", dup)
+	}
+	if len(consumed) != nprod*per {
+		res.Violate("freelist-entry-spurious", "c13-fl-entry-spurious", 0, nil, "consumer saw %d distinct entries, %d were produced", len(consumed), nprod*per)
+	}
+	res.Add("freelist_stress_runs", 1)
+	res.Add("freelist_stress_entries_produced", int64(nprod*per))
+	res.Add("freelist_stress_handovers", handovers)
+	res.Add("freelist_stress_entries_via_handover", handoverEntries)
+	res.Hash = core.HashStrings("flstress", fmt.Sprint(c.Index, nprod, per, handovers))
+	res.NonTrivial = handovers >= 3 && handoverEntries > 0
+	if c.Index == c13SeqCount(c.Tier) {
+		res.Sample = map[string]any{"case": c.ID(), "kind": "freelist-concurrent-stress", "producers": nprod, "entries_each": per, "handovers": handovers, "entries_via_handover": handoverEntries}
+	}
+	return res
 }
 
 var _ = core.HashStrings
